@@ -34,9 +34,7 @@ def Obs.updateSpec (c : Cfg) (s : State) (id : Nat) (x : SOp) (o : Obs) : Obs ×
     ({ o with curMakespan := max o.curMakespan x.end_,
               rewards := o.rewards ++ [o.curMakespan - max o.curMakespan x.end_] }, [])
   | .idleReward =>
-    ({ o with rewards := o.rewards ++ [-(match ((s.sched.getD x.machine []).dropLast).getLast? with
-        | some l => x.start - l.end_
-        | none => x.start)] }, [])
+    ({ o with rewards := o.rewards ++ [-(idleGap (s.sched.getD x.machine []).dropLast x)] }, [])
   | .recorder => ({ o with log := o.log ++ [.update x (snapshotSpec c s)] }, [(id, .update x (snapshotSpec c s))])
 
 /-- pure meaning of `observer.reset()` -/
